@@ -364,17 +364,37 @@ async fn run_case_a(case: &CaseA, seed: u64) -> OutcomeA {
     }
 }
 
-/// Names the faulted operation by its role in the admission exchange.
+/// Names the faulted operation by its role in the admission exchange.  The handshake
+/// writes are "challenge" (challenge mechanism only) and "decision"; each is followed by
+/// its flushes; the only handshake read is the client's auth frame; the rest is the actor.
 fn op_role(key_material: bool, ops: &[u8], k: usize) -> String {
-    let table: &[&str] = if key_material {
-        &["write-decision", "flush-decision"]
-    } else {
-        &["write-challenge", "flush-challenge", "read-client-auth", "write-decision", "flush-decision"]
-    };
-    match table.get(k) {
-        Some(r) => (*r).to_string(),
-        None => format!("actor-{}", match ops.get(k) { Some(b'r') => "read", Some(b'w') => "write", Some(b'f') => "flush", _ => "op" }),
+    let hw: &[&str] = if key_material { &["decision"] } else { &["challenge", "decision"] };
+    let (mut writes, mut reads, mut flushes_since_write, mut read_since_write) = (0usize, 0usize, 0usize, false);
+    let mut role = String::from("op");
+    for op in ops.iter().take(k + 1) {
+        role = match op {
+            b'w' => {
+                writes += 1;
+                flushes_since_write = 0;
+                read_since_write = false;
+                if writes <= hw.len() { format!("write-{}", hw[writes - 1]) } else { "actor-write".into() }
+            }
+            b'r' => {
+                reads += 1;
+                read_since_write = true;
+                if !key_material && reads == 1 { "read-client-auth".into() } else { "actor-read".into() }
+            }
+            _ => {
+                flushes_since_write += 1;
+                if writes >= 1 && writes <= hw.len() && !read_since_write && flushes_since_write <= 2 {
+                    format!("flush-{}", hw[writes - 1])
+                } else {
+                    "actor-flush".into()
+                }
+            }
+        };
     }
+    role
 }
 
 fn execute_a(case: &CaseA, seed: u64) -> OutcomeA {
@@ -643,6 +663,11 @@ fn main() {
     let rounds = a.pick(30u64, 600);
     for round in 0..rounds {
         layer_b_round(&rep, a.seed, 50, round, a.pick(6, 12));
+        // a missing disconnect costs the whole budget of its round: do not let that eat the run
+        if rep.counter("B.rounds_incomplete") >= 2 {
+            rep.note("layer B stopped early: two rounds ended with admitted connections that never reported a disconnect");
+            break;
+        }
     }
     rep.set_exhaustive(false);
     rep.set_extra("fault_enumeration", json!({"layer": "A", "what": "every operation index of the fault-free admission run (+2) x {error, eof} x {challenge, key material} x {allow, deny} x {immediate, yielding on_connect}", "complete": true}));
@@ -715,7 +740,7 @@ fn layer_b_round(rep: &Arc<Report>, seed: u64, n_clients: usize, round: u64, wor
         }
         // every admitted connection must now report its disconnect: wait for the expected
         // terminal events with a generous budget
-        let deadline = std::time::Instant::now() + Duration::from_secs(40);
+        let deadline = std::time::Instant::now() + Duration::from_secs(30);
         let complete = loop {
             let n = policy.notify.notified();
             if check_log(&policy.events()).missing.is_empty() {
@@ -740,8 +765,9 @@ fn layer_b_round(rep: &Arc<Report>, seed: u64, n_clients: usize, round: u64, wor
         rep.violation(&format!("C07:{sig}:real-server"), d.clone(), replay.clone());
     }
     if !complete {
+        rep.count("B.rounds_incomplete", 1);
         rep.inconclusive("B:disconnect-not-seen-within-budget-after-server-shutdown");
-        rep.note(format!("round {round}: admitted connections without on_disconnect after 40 s: {:?}", v.missing));
+        rep.note(format!("round {round}: admitted connections without on_disconnect after 30 s: {:?}", v.missing));
     }
     if v.admitted > 0 {
         rep.nontrivial(format!("B/{mix}").as_bytes());
